@@ -738,7 +738,7 @@ var valsetSkip = [][]byte{[]byte("grace-period"), []byte("unjailed-snapshot")}
 func (e *env) hash(n *explore.Node) string {
 	h := sha256.New()
 	h.Write([]byte(n.Ghost.Key()))
-	h.Write([]byte(e.w.StoreDigest(n.Ctx, "staking", "slashing", "evm", "consensus", "metrix")))
+	h.Write([]byte(e.w.StoreDigest(n.Ctx, "staking", "slashing", "evm", world.ConsensusStore, "metrix")))
 	// valset store without the keep-alive book-keeping of UpdateGracePeriod
 	// (only read by JailInactiveValidators, which never runs at height 50)
 	it := n.Ctx.KVStore(e.w.App.GetKey(vtypes.StoreKey)).Iterator(nil, nil)
@@ -1158,7 +1158,12 @@ func (e *env) product(rootP sdk.Context, deadline time.Time, shard, nshards int,
 					r.Cap(fmt.Sprintf("product: deadline reached within k=%d", k))
 					return
 				}
-				e.productVector(rootP, append([]int(nil), st...))
+				e.productVector(rootP, append([]int(nil), st...), true)
+			} else if k <= 2 {
+				// the 72 smallest vectors are evaluated by every worker (counted by
+				// their owner only) so that the violations that survive the merge
+				// (three per signature, shard 0 first) are the smallest ones
+				e.productVector(rootP, append([]int(nil), st...), false)
 			}
 			idx++
 			i := k - 1
@@ -1177,9 +1182,14 @@ func (e *env) product(rootP sdk.Context, deadline time.Time, shard, nshards int,
 	}
 }
 
-func (e *env) productVector(rootP sdk.Context, st []int) {
+func (e *env) productVector(rootP sdk.Context, st []int, mine bool) {
 	r := e.r
 	k := len(st)
+	if !mine {
+		saved := e.cnt
+		e.cnt = map[string]float64{}
+		defer func() { e.cnt = saved }()
+	}
 	base, err := e.productBase(rootP, st)
 	if err != nil {
 		r.Violate("harness:product-stakes", fmt.Sprintf("%v: %v", st, err), pcase{st, 0}.replay())
@@ -1193,13 +1203,17 @@ func (e *env) productVector(rootP sdk.Context, st []int) {
 		f := e.productCase(base, p)
 		e.count("n_product_cases")
 		if f == nil {
-			r.Case(p.String())
-			if e.shard == 0 && int(e.cnt["P.n_product_cases"])%997 == 1 {
-				r.Sample(map[string]interface{}{"scenario": "product", "case": p.String(), "result": "queued UpdateValset messages equal the reference"})
+			if mine {
+				r.Case(p.String())
+				if e.shard == 0 && int(e.cnt["P.n_product_cases"])%997 == 1 {
+					r.Sample(map[string]interface{}{"scenario": "product", "case": p.String(), "result": "queued UpdateValset messages equal the reference"})
+				}
 			}
 			continue
 		}
-		r.Case("")
+		if mine {
+			r.Case("")
+		}
 		e.count("n_product_fail:" + f.Signature)
 		if failed[f.Signature] {
 			continue // one report per stake vector and defect class
@@ -1208,9 +1222,6 @@ func (e *env) productVector(rootP sdk.Context, st []int) {
 		e.count(fmt.Sprintf("n_product_vectors_fail:%s:k=%d", f.Signature, k))
 		if os.Getenv("VERIF_C10_LIST") != "" {
 			fmt.Fprintf(os.Stderr, "FAIL %s %s\n%s\n", f.Signature, p.String(), f.Message)
-		}
-		if len(e.examples) < 8 && k <= 2 {
-			e.examples = append(e.examples, map[string]interface{}{"signature": f.Signature, "case": p.String(), "detail": f.Message})
 		}
 		r.Violate(f.Signature, p.String()+"\n"+f.Message, p.replay())
 	}
@@ -1231,6 +1242,7 @@ func main() {
 }
 
 func run(r *report.Run, shard, nshards int, replayFile string) {
+	t0 := time.Now()
 	debug.SetGCPercent(400)
 	if f := os.Getenv("VERIF_C10_PROF"); f != "" && shard == 0 {
 		fh, _ := os.Create(f)
@@ -1246,9 +1258,9 @@ func run(r *report.Run, shard, nshards int, replayFile string) {
 	rootP := world.Fork(w.Root)
 	must(e.addChain(rootP, c2))
 
-	nvec, depth, rich, maxK := 4, 5, false, 4
+	nvec, depth, maxK := 4, 5, 4
 	if r.Thorough() {
-		nvec, depth, rich = len(bfsVectors), 7, true
+		nvec, depth = len(bfsVectors), 7
 	}
 	if s := os.Getenv("VERIF_C10_DEPTH"); s != "" {
 		fmt.Sscan(s, &depth)
@@ -1259,8 +1271,12 @@ func run(r *report.Run, shard, nshards int, replayFile string) {
 	if s := os.Getenv("VERIF_C10_MAXK"); s != "" {
 		fmt.Sscan(s, &maxK)
 	}
-	r.Rule = fmt.Sprintf("(P) product: 1..%d validators x stake alphabet {1,2,3,1e6,2^53-1,2^53+1,1e18,2^62} (every vector) x every subset of them with an account on a second chain; stakes set by real MsgDelegate txs + staking end-blocker, snapshot built by the valset end-block at height 50, published by the evm keeper on c1 (OnSnapshotBuilt) and on c2 (chain activated afterwards, just-in-time path); every queued UpdateValset compared with floor(2^32*share/total) in math/big, order, sum <= 2^32, quorum gate. "+
-		"(B) BFS to depth %d from %d stake vectors over Delegate(+1,x2)/Undelegate(1)/Unbond (real staking txs), Jail (valset keeper, else slashing keeper)/Unjail (MsgUnjail), StakingEnd (staking end-blocker), Add/RemoveAccount(v,c1|c2), AddChain(c2), ActivateChain(c2), Build (valset end-block), Activate(id,c) for the two latest ids (SetSnapshotOnChain), JustInTime(c) (evm PreJobExecution), Advance31d (<=2); after every transition: every stored snapshot against its first-seen bytes, ids, current snapshot, membership/shares/total of a new snapshot against the staking module, every queued UpdateValset against the reference", maxK, depth, nvec)
+	richNote := ""
+	if r.Thorough() {
+		richNote = " The same search is first run to depth 4 with the full alphabet (every operation kind for every one of v0..v2)."
+	}
+	r.Rule = fmt.Sprintf("(P) product: 1..%d validators x stake alphabet {1,2,3,1e6,2^53-1,2^53+1,1e18,2^62} (every vector) x every subset of them with an account on a second chain; stakes set by real MsgDelegate txs + staking end-blocker, snapshot built by the valset end-block at height 50, published by the evm keeper on c1 (OnSnapshotBuilt) and on c2 (chain activated afterwards, older snapshot live there, just-in-time path); every queued UpdateValset compared with floor(2^32*share/total) in math/big, order, sum <= 2^32, quorum gate. "+
+		"(B) BFS to depth %d from %d initial states (stake vectors of v0..v2 from the same alphabet, all registered on the active chain c1, snapshot built and published) over Delegate(+1 | x2)/Undelegate(1)/Unbond (real staking txs + staking end-blocker), Jail (valset keeper, else slashing keeper)/Unjail (MsgUnjail), StakingEnd, Add/RemoveAccount(v,c1|c2), AddChain(c2), ActivateChain(c2), Build (valset end-block, h %% 50 == 0), Activate(id,c) for the two latest ids (SetSnapshotOnChain), JustInTime(c) (evm PreJobExecution), Advance31d (<=2); validators take the roles of the alphabet in a rotation that depends on the stake vector (+1/Undelegate: one validator, x2: one, Unbond: one, Jail/Unjail: two, accounts: three on c2 and one on c1).%s After every transition: every stored snapshot against its first-seen bytes, ids, current snapshot, membership/shares/total of a new snapshot against the staking module, every queued UpdateValset against the reference", maxK, depth, nvec, richNote)
 	r.Assumptions = []string{
 		"quorum threshold read as the integer 2863311530 = floor(2^33/3) used by the bridge contract; demanding 2863311531 (ceil) would alarm on correct code",
 		"'account on every active chain': an external chain info with that chain reference id (ValidatorSupportsAllChains compares reference ids of chains whose status is ACTIVE); only evm-typed accounts are registered, so the reading does not depend on the chain type",
@@ -1277,16 +1293,23 @@ func run(r *report.Run, shard, nshards int, replayFile string) {
 	deadline := r.Deadline(150*time.Second, 24*time.Minute)
 
 	if replayFile != "" {
-		e.replay(rootB, rootP, replayFile, depth, rich)
+		e.replay(rootB, rootP, replayFile, depth)
 		return
 	}
 
 	// (P) at most half of the time budget, so that (B) always runs
 	start := time.Now()
+	timing := func(what string) {
+		if os.Getenv("VERIF_C10_TIMING") != "" {
+			fmt.Fprintf(os.Stderr, "[shard %d] %s at %.1fs (deadline in %.1fs)\n", shard, what, time.Since(t0).Seconds(), time.Until(deadline).Seconds())
+		}
+	}
+	timing("set-up done")
 	pdl := start.Add(deadline.Sub(start) / 2)
 	if os.Getenv("VERIF_C10_SKIP_PRODUCT") == "" {
 		e.phase = "P."
 		e.product(rootP, pdl, shard, nshards, maxK)
+		timing("product done")
 	}
 
 	// (B)
@@ -1307,13 +1330,15 @@ func run(r *report.Run, shard, nshards int, replayFile string) {
 			r.Extra["R.reexecuted_for_lazy_nodes"] = float64(res.Reexec)
 		}
 		e.phase = "B."
-		spec := e.spec(rootB, nvec, depth, rich && !r.Thorough(), deadline, shard, nshards)
+		spec := e.spec(rootB, nvec, depth, false, deadline, shard, nshards)
 		res := search(r, spec)
 		if shard == 0 {
 			r.Extra["bfs_depth_completed"] = float64(res.DepthCompleted)
 		}
+		r.Extra[fmt.Sprintf("B.workers_that_completed_depth_%d", res.DepthCompleted)] = 1.0
 		r.Extra["B.reexecuted_for_lazy_nodes"] = float64(res.Reexec)
 	}
+	timing("bfs done")
 	for k, v := range e.cnt {
 		r.Extra[k] = v
 	}
@@ -1335,7 +1360,7 @@ func (e *env) spec(rootB sdk.Context, nvec, depth int, rich bool, deadline time.
 	}
 }
 
-func (e *env) replay(rootB, rootP sdk.Context, file string, depth int, rich bool) {
+func (e *env) replay(rootB, rootP sdk.Context, file string, depth int) {
 	r := e.r
 	var v report.Violation
 	b, err := os.ReadFile(file)
